@@ -12,9 +12,10 @@
      - hostlist_delete_range sends iterators of the deleted range to the end of the previous one;
      - hostlist_delete_nth and hostlist_remove re-base every iterator of the edited range
        (hostlist_shift_iterators (.., n = 0) for lo++/hi--, hostlist_split_iterators for a split);
-     - hostlist_pop goes through hostlist_delete_range / hostlist_shift_iterators.
+     - hostlist_pop goes through hostlist_delete_range / hostlist_shift_iterators;
+     - hostlist_nth sizes its buffer by the name (fixes/C16-nth-long-name.diff).
    Everything else is the code as it is, warts included (find adjusts the width field of the
-   range it inspects; nth prints into an 80-byte stack buffer; int / unsigned long conversions).
+   range it inspects; int / unsigned long conversions).
 
    State = range array + cached host count + the live iterators.  A C `int` is a Z here, an
    `unsigned long` an N below 2^64.  Definitions only: this file must keep running when a proof
@@ -29,7 +30,8 @@ Inductive efault :=
 | EFWritePast   (* store past the end of a fixed buffer *)
 | EFDeadIter    (* iterator handle used after hostlist_iterator_destroy *)
 | EFIntOverflow (* the `int' host count would pass INT_MAX *)
-| EFOracle.     (* the qsort result handed in is not a rearrangement of the range array *)
+| EFOracle      (* the qsort result handed in is not a rearrangement of the range array *)
+| EFFuel.       (* a loop of the C did not end within the bound the model gives it (never reached, see HLEditFacts) *)
 Inductive res (A : Type) : Type := ROk (a : A) | RFault (f : efault).
 Arguments ROk {A} a. Arguments RFault {A} f.
 Definition rbind {A B} (x : res A) (f : A -> res B) : res B :=
@@ -212,15 +214,11 @@ Fixpoint locate (l : list hr) (i : nat) (n count : Z) : option (nat * hr * Z) :=
     if (n <=? c - 1 + count)%Z then Some (i, r, count) else locate rest (S i) n (count + c)%Z
   end.
 
-(* ---- hostlist_nth: _hostrange_string prints into char buf[MAXHOSTNAMELEN + 16] ---- *)
-Definition NTH_BUF : nat := 80.
+(* ---- hostlist_nth: _hostrange_string (buffer sized by the name, fixes/C16-nth-long-name.diff) ---- *)
 Definition st_nth (s : hstate) (n : Z) : res (option bytes) :=
   match locate (st_ranges s) 0 n 0 with
   | None => ROk None
-  | Some (_, r, count) =>
-    if single r then ROk (Some (firstn (NTH_BUF - 2) (pfx r)))
-    else if (NTH_BUF <=? length (pfx r))%nat then RFault EFWritePast
-    else ROk (Some (firstn (NTH_BUF - 2) (pfx r ++ fmt (wid r) (wrap (lo r + to_ulong (n - count))))))
+  | Some (_, r, count) => ROk (Some (host_at r (to_ulong (n - count))))
   end.
 
 (* ---- hostlist_delete_nth ---- *)
@@ -279,15 +277,24 @@ Definition st_delete_host (s : hstate) (name : bytes) : res (hstate * Z) :=
   if (0 <=? n)%Z then rbind (st_delete_nth s1 n) (fun '(s2, _) => ROk (s2, 1%Z))
   else ROk (s1, 0%Z).
 
-(* ---- hostlist_delete: pop every name off a temporary list, delete_host each ---- *)
+(* ---- hostlist_delete: pop every name off a temporary list and delete every occurrence of it
+   (`while (hostlist_delete_host(hl, hostname)) n++;`, fixes/C02-delete-all-occurrences.diff) ---- *)
+Fixpoint delete_every (fuel : nat) (s : hstate) (name : bytes) (n : Z) : res (hstate * Z) :=
+  match fuel with
+  | O => RFault EFFuel
+  | S f =>
+    rbind (st_delete_host s name) (fun '(s', k) =>
+      if (k =? 0)%Z then ROk (s', n) else delete_every f s' name (n + 1)%Z)
+  end.
 Fixpoint delete_loop (fuel : nat) (s tmp : hstate) (n : Z) : res (hstate * Z) :=
   match fuel with
-  | O => ROk (s, n)
+  | O => RFault EFFuel
   | S f =>
     rbind (st_pop tmp) (fun '(tmp', name) =>
       match name with
       | None => ROk (s, n)
-      | Some nm => rbind (st_delete_host s nm) (fun '(s', k) => delete_loop f s' tmp' (n + k)%Z)
+      | Some nm =>
+        rbind (delete_every (S (Z.to_nat (st_nhosts s))) s nm n) (fun '(s', n') => delete_loop f s' tmp' n')
       end)
   end.
 Definition st_delete (s : hstate) (expr : bytes) : res (hstate * Z) :=
